@@ -498,6 +498,11 @@ def verify(E, contract, variant=None, setup=None):
             if contract.body_slice is not None:
                 import copy as _copy
                 kept, dropped = contract.body_slice(list(fref.node.body))
+                # locals that only the dropped statements assign and the setup does not bind: using one
+                # of them is a limit of the slice (e.g. a renamed variable), not an unbound local
+                import ast as _ast
+                E.slice_outside_names = {x.id for d in dropped for x in _ast.walk(d)
+                                         if isinstance(x, _ast.Name) and isinstance(x.ctx, _ast.Store)} - set(frame)
                 node2 = _copy.copy(fref.node)
                 node2.body = kept
                 run_ref = FuncRef(fref.module, fref.qualname, node2, fref.cls)
@@ -588,6 +593,7 @@ def verify(E, contract, variant=None, setup=None):
                 s.notes and res.notes.extend(n for n in s.notes if n not in res.notes)
                 s.frames.pop()
         finally:
+            E.slice_outside_names = set()
             E.entry_states.pop()
             E.spec_env.pop()
     except Unsupported as e:
